@@ -76,28 +76,190 @@ class CFG:
             return [t['t']] if 't' in t else []
         return []
 
+    # -- variant knowledge (path sensitivity for reachability) -----------------------------------
+    def _vk_init(self):
+        """Per block, the effect on what is known about enum variants / boolean flags held in plain locals.
+
+        A local that is assigned an enum-variant aggregate (`x = Some(..)`, `_0 = Ok(..)`), a boolean constant, the
+        failing arm of a `?` (`from_residual`: the Err / None of the function's return type), a copy of such a local,
+        its discriminant, or its `Try::branch` carries its discriminant value along the path; a SwitchInt on such a
+        local lets a path continue only to the successor its value selects.  This removes the infeasible paths that a
+        decision recorded in a variable and tested later would otherwise create (`let r = if c { Ok(v) } else
+        { Err(e) }; r?`, an inlined helper that returns a Result which the caller checks with `?`, a `found` flag).
+        Locals whose address is taken mutably, or that are assigned through a projection, are not tracked."""
+        if getattr(self, '_vk', None) is not None:
+            return
+        locs = self.body['locals']
+        bad = set()
+        for blk in self.blocks:
+            for st in blk['s']:
+                d, r = st.get('d'), st.get('r')
+                if d and 'p' in d and d['p'] and d['p'][0] != '*':
+                    bad.add(d['l'])
+                if r and r['k'] in ('ref', 'rawptr') and (r.get('m') or r['k'] == 'rawptr') and not ('p' in r['p'] and r['p']['p'] and r['p']['p'][0] == '*'):
+                    bad.add(r['p']['l'])
+                if 'setdiscr' in st:
+                    bad.add(st['setdiscr']['l'])
+            t = blk['t']
+            if t['k'] == 'call' and 'p' in t['d'] and t['d']['p'] and t['d']['p'][0] != '*':
+                bad.add(t['d']['l'])
+
+        def plain(o):
+            pl = o.get('mv') or o.get('cp') if isinstance(o, dict) else None
+            return pl['l'] if pl is not None and 'p' not in pl else None
+        eff = []
+        sw = {}
+        for bi, blk in enumerate(self.blocks):
+            es = []
+            for st in blk['s']:
+                d, r = st.get('d'), st.get('r')
+                if not d or 'p' in d or r is None:
+                    continue
+                l = d['l']
+                if l in bad:
+                    continue
+                if r['k'] == 'agg' and r.get('ak') == 'adt' and 'dv' in r:
+                    es.append(('set', l, int(r['dv'])))
+                elif r['k'] == 'use' and 'c' in r['a'] and r['a'].get('ty') == 'bool' and str(r['a'].get('v')) in ('0', '1'):
+                    es.append(('set', l, int(str(r['a']['v']))))
+                elif r['k'] == 'use' and plain(r['a']) is not None and plain(r['a']) not in bad:
+                    es.append(('copy', l, plain(r['a'])))
+                elif r['k'] == 'discr' and 'p' not in r['p'] and r['p']['l'] not in bad:
+                    es.append(('copy', l, r['p']['l']))
+                else:
+                    es.append(('kill', l))
+            t = blk['t']
+            if t['k'] == 'call' and 'p' not in t['d'] and t['d']['l'] not in bad:
+                l = t['d']['l']
+                fn = t.get('fn') or ''
+                if fn.endswith('Try::branch') and len(t['args']) == 1 and plain(t['args'][0]) is not None and plain(t['args'][0]) not in bad:
+                    ga = t.get('ga', '')
+                    if ga.startswith('[core::result::Result<'):
+                        es.append(('copy', l, plain(t['args'][0])))
+                    elif ga.startswith('[core::option::Option<'):
+                        es.append(('flip', l, plain(t['args'][0])))
+                    else:
+                        es.append(('kill', l))
+                elif fn.endswith('FromResidual::from_residual'):
+                    ty = locs[l]['ty']
+                    if ty.startswith('core::result::Result<'):
+                        es.append(('set', l, 1))
+                    elif ty.startswith('core::option::Option<'):
+                        es.append(('set', l, 0))
+                    else:
+                        es.append(('kill', l))
+                else:
+                    es.append(('kill', l))
+            elif t['k'] == 'yield' and 'p' not in t.get('ra', {'p': 1}):
+                es.append(('kill', t['ra']['l']))
+            if t['k'] == 'switch':
+                l = plain(t['d'])
+                if l is not None and l not in bad:
+                    listed = {}
+                    for v, tgt in t['ts']:
+                        try:
+                            listed[int(str(v))] = tgt
+                        except ValueError:
+                            listed = None
+                            break
+                    if listed is not None:
+                        sw[bi] = (l, listed, t['o'])
+            eff.append(es)
+        # locals whose knowledge can matter: those switched on, closed backwards over copies
+        rel = {l for (l, _, _) in sw.values()}
+        changed = True
+        while changed:
+            changed = False
+            for es in eff:
+                for e in es:
+                    if e[0] in ('copy', 'flip') and e[1] in rel and e[2] not in rel:
+                        rel.add(e[2])
+                        changed = True
+        self._vk = ([[e for e in es if e[1] in rel] for es in eff], sw, rel)
+
+    def _vk_step(self, b, K):
+        """knowledge after the statements and terminator of block b, given knowledge K (dict) on entry"""
+        es = self._vk[0][b]
+        if not es:
+            return K
+        K = dict(K)
+        for e in es:
+            if e[0] == 'set':
+                K[e[1]] = e[2]
+            elif e[0] == 'copy':
+                if e[2] in K:
+                    K[e[1]] = K[e[2]]
+                else:
+                    K.pop(e[1], None)
+            elif e[0] == 'flip':
+                if e[2] in K:
+                    K[e[1]] = 1 - K[e[2]]
+                else:
+                    K.pop(e[1], None)
+            else:
+                K.pop(e[1], None)
+        return K
+
+    def _vk_allows(self, b, s, K):
+        sw = self._vk[1].get(b)
+        if sw is None:
+            return True
+        l, listed, other = sw
+        if l not in K:
+            return True
+        v = K[l]
+        if v in listed:
+            return listed[v] == s
+        return s == other
+
     # -- reachability ---------------------------------------------------------------------------
     def reach(self, starts, cut_blocks=(), cut_edges=(), stop_blocks=()):
         """blocks reachable from `starts` (inclusive) without entering cut_blocks or crossing cut_edges.
-        stop_blocks are reached but not expanded."""
+        stop_blocks are reached but not expanded.  Paths that contradict what a tracked local is known to hold
+        (see _vk_init) are not followed; nothing is known at the start blocks."""
         cut_blocks = set(cut_blocks)
         cut_edges = set(cut_edges)
         stop_blocks = set(stop_blocks)
+        self._vk_init()
+        if not self._vk[1]:
+            seen = set()
+            dq = deque()
+            for s in starts:
+                if s not in cut_blocks and s not in seen:
+                    seen.add(s)
+                    dq.append(s)
+            while dq:
+                b = dq.popleft()
+                if b in stop_blocks:
+                    continue
+                for s in self.succ[b]:
+                    if s in seen or s in cut_blocks or (b, s) in cut_edges:
+                        continue
+                    seen.add(s)
+                    dq.append(s)
+            return seen
         seen = set()
+        states = set()
         dq = deque()
         for s in starts:
-            if s not in cut_blocks and s not in seen:
+            if s not in cut_blocks and (s, ()) not in states:
+                states.add((s, ()))
                 seen.add(s)
-                dq.append(s)
+                dq.append((s, {}))
         while dq:
-            b = dq.popleft()
+            b, K = dq.popleft()
             if b in stop_blocks:
                 continue
+            K2 = self._vk_step(b, K)
             for s in self.succ[b]:
-                if s in seen or s in cut_blocks or (b, s) in cut_edges:
+                if s in cut_blocks or (b, s) in cut_edges or not self._vk_allows(b, s, K2):
                     continue
+                key = (s, tuple(sorted(K2.items())))
+                if key in states:
+                    continue
+                states.add(key)
                 seen.add(s)
-                dq.append(s)
+                dq.append((s, K2))
         return seen
 
     def reach_after(self, blocks, **kw):
